@@ -36,7 +36,9 @@ def body(check):
                          "abscissae, SSP (Kraaijevanger r=1) and stability polynomials are checked in exact rational "
                          "arithmetic; valid for every right-hand side because K_j are uninterpreted symbols")
     check.trusted += ["nominal orders table (rk.NOMINAL_ORDER)", "Bogey-Bailly 2004 published polynomial coefficients (12 digits)"]
-    check.assume("field.copy()/set() are deep copies (decided under C07 FIELD-DEEPCOPY)")
+    # stage times are read from copies of the field: the copies must carry data, time and tag (same obligations as C07)
+    from .c07 import field_deepcopy
+    check.guarded("FIELD-DEEPCOPY", "field.fdata", lambda: field_deepcopy(check))
     check.assume("LSRK-POLY tolerance 2e-9 relative: the 14-digit betas in the source reproduce the published 12-digit gammas to <= 6e-10")
     check.exhaustive = True
     classes = explicit_classes(proj)
@@ -52,7 +54,7 @@ def body(check):
         try:
             ai, outs = run_step(proj, c, rhs_owned=True)      # "for every right-hand side": buffers may be re-used
         except AnalysisError as e:
-            check.undecided("AFF", q, "abstract interpretation failed: %s" % e, loc)
+            check.failed("AFF", q, e, loc, "abstract interpretation failed")
             continue
         T = rk.extract(outs[0], name)
         seen = set()
